@@ -1008,5 +1008,11 @@ def shrink(c):
             yield dict(c, orig_cc=False)
 
 
+def extra_obligations(work):
+    # T-int: the part of the model that is re-translated from the current source
+    import translate_int
+    return translate_int.obligations(work, translate_int.FOR['C17'])
+
+
 if __name__ == '__main__':
     sys.exit(common.main(sys.modules[__name__]))
